@@ -195,12 +195,18 @@ impl SymbolMap {
         loc: FileRange,
     ) -> Option<impl Iterator<Item = (FileRange, SymbolId)> + '_> {
         let map = self.pos_to_symbol_map.get(&loc.file)?;
-        Some(map.iter(loc.range).map(move |(range, id)| {
-            (
-                FileRange::new(loc.file, TextRange::new(range.start, range.end)),
-                *id,
-            )
-        }))
+        // the interval map panics on an empty query interval
+        let map = (!loc.range.is_empty()).then_some(map);
+        Some(
+            map.into_iter()
+                .flat_map(move |map| map.iter(loc.range))
+                .map(move |(range, id)| {
+                    (
+                        FileRange::new(loc.file, TextRange::new(range.start, range.end)),
+                        *id,
+                    )
+                }),
+        )
     }
 
     pub fn find_symbol_at(&self, pos: FilePosition) -> Option<Symbol> {
